@@ -150,3 +150,58 @@ func verif_lemma_multicast_constants() {
 	vAssert(spec_mcast6_mac(IP6AllNodesAddr))
 	vAssert(spec_mcast6_mac(IP6AllRoutersAddr))
 }
+
+// marshalOptions is unrolled: the library's own callers pass a handful of options
+// (the unwind obligation fails for a call site that passes more).
+func verif_unroll_marshalOptions_1() int { return 2 }
+
+// spec_rs_one_lla: the solicitation carries exactly one option, a source link-layer address.
+func spec_rs_one_lla(rs *RouterSolicitation) bool {
+	if rs == nil || len(rs.Options) != 1 {
+		return false
+	}
+	lla, ok := rs.Options[0].(*LinkLayerAddress)
+	return ok && lla != nil && lla.Direction == Source && len(lla.MAC) == 6
+}
+
+// RouterSolicitation.marshal with the one option the library sends: the message BODY as
+// mdlayher/ndp produces it: 4 reserved bytes and the 8-byte option (the ICMPv6 type, code and
+// checksum are not part of it: the sender has to put them in front).
+//
+//verif:props C07
+func verif_contract_RouterSolicitation_marshal(rs *RouterSolicitation) ([]byte, error) {
+	vRequires(spec_rs_one_lla(rs))
+	vCanary()
+	mac := rs.Options[0].(*LinkLayerAddress).MAC
+	b, err := rs.marshal()
+	vEnsures(err == nil && len(b) == 12 && vIsFreshRegion(b))
+	vEnsures(b[0] == 0 && b[1] == 0 && b[2] == 0 && b[3] == 0 && b[4] == 1 && b[5] == 1)
+	vEnsures(b[6] == mac[0] && b[7] == mac[1] && b[8] == mac[2] && b[9] == mac[3] && b[10] == mac[4] && b[11] == mac[5])
+	return b, err
+}
+
+// ICMP6SendRouterSolicitation: one ICMPv6 Router Solicitation (type 133, code 0, 4 reserved bytes,
+// RFC 4861 4.1) with the source link-layer address option, to the all-routers group.
+//
+//verif:props C07
+//verif:timeout 60s
+func verif_contract_Session_ICMP6SendRouterSolicitation(h *Session) error {
+	vRequires(VerifSpecSessionOK(h))
+	vCanary()
+	n0 := vWireCount()
+	vModifiesWire()
+	err := h.ICMP6SendRouterSolicitation()
+	if err == nil {
+		vEnsures(vWireCount() == n0+1)
+		w := vWireLast()
+		vEnsures(len(w) == 54+16 && spec_be16(w, 12) == 0x86dd && w[20] == 58 && w[21] == 255)
+		vEnsures(w[54] == 133 && w[55] == 0 && w[58] == 0 && w[59] == 0 && w[60] == 0 && w[61] == 0)
+		vEnsures(w[62] == 1 && w[63] == 1 && w[64] == h.NICInfo.HostAddr4.MAC[0] && w[65] == h.NICInfo.HostAddr4.MAC[1] && w[66] == h.NICInfo.HostAddr4.MAC[2] &&
+			w[67] == h.NICInfo.HostAddr4.MAC[3] && w[68] == h.NICInfo.HostAddr4.MAC[4] && w[69] == h.NICInfo.HostAddr4.MAC[5])
+		vEnsures(w[6] == h.NICInfo.HostAddr4.MAC[0] && w[11] == h.NICInfo.HostAddr4.MAC[5])
+		// to the all-routers group: ff02::2 behind the matching 33:33:00:00:00:02
+		vEnsures(w[0] == 0x33 && w[1] == 0x33 && w[2] == 0 && w[3] == 0 && w[4] == 0 && w[5] == 2)
+		vEnsures(spec_ip6_at(w, 38) == netip.AddrFrom16([16]byte{0xff, 0x02, 0, 0, 0, 0, 0, 0, 0, 0, 0, 0, 0, 0, 0, 0x02}))
+	}
+	return err
+}
